@@ -150,9 +150,14 @@ class BlockChain(object):
         return self.unlocked_block_storage.get(h)
 
     def add_headers(self, header_iter: Iterable[Any]) -> list[Any]:
+        locked_length = len(self._locked_chain)
+
         def iterate() -> Generator[tuple[Any, Any], None, None]:
             for header in header_iter:
                 h = header.hash()
+                if self.hash_to_index_lookup.get(h, locked_length) < locked_length:
+                    # already locked in: the chain finder no longer tracks it
+                    continue
                 self.weight_lookup[h] = header.difficulty
                 self.unlocked_block_storage[h] = header
                 yield h, header.previous_block_hash
